@@ -185,17 +185,25 @@ def run_case(ctx, res, p):
     n = X.shape[0]
     for k in ("estimator", "config", "kernel", "latent"):
         res.count(f"{k}={p[k]}")
+    res.count("path=" + p.get("path", "eager"))
     sample = {k: (v if not isinstance(v, np.ndarray) else list(v.shape)) for k, v in p.items()}
     canon = repr([(k, v.tobytes() if isinstance(v, np.ndarray) else v) for k, v in sorted(p.items())])
     try:
         est = make_est(p)
+        path = p.get("path", "eager")
         if p["latent"] == "fit":
-            est.fit(X)
+            # eager: fit() builds the predictor; lazy: predictor built on first access of .predict
+            if path == "eager":
+                est.fit(X)
+            elif path == "lazy-fit":
+                est.fit(X, build_predict=False)
+            else:
+                est.fit_predict(X)
         else:
             est.prepare_inference(X)
             shp = np.asarray(est.initial_value).shape
             z = np.random.default_rng(p["zseed"]).normal(size=shp) * 0.5
-            est.process_inference(pre_transformation=z)
+            est.process_inference(pre_transformation=z, build_predict=(path == "eager"))
     except Exception as e:
         res.case(canon, False, sample)
         res.oracle_fail(f"fit raised {exc_class(e)}: {str(e)[:80]}", p, signature="C02:fit:" + exc_class(e))
@@ -266,7 +274,9 @@ def gen_case(rng, latent):
     return {"op": "fit", "estimator": est, "config": cfg, "gp_kwargs": gp, "X": X, "Xu": Xu,
             "kernel": ["M52", "M32", "EQ"][rng.integers(3)], "jitter": loguniform(rng, 1e-6, 1e-3),
             "ls": loguniform(rng, 0.5, 2.0) if rng.random() < 0.7 else None, "ls_time": loguniform(rng, 0.5, 2.0),
-            "k": 5, "latent": latent, "zseed": int(rng.integers(1 << 30)), "n_obs_expected": n_obs}
+            "k": 5, "latent": latent, "zseed": int(rng.integers(1 << 30)), "n_obs_expected": n_obs,
+            "path": (["eager", "lazy-fit", "lazy-fit-predict"][rng.integers(3)] if latent == "fit"
+                     else ["eager", "lazy"][rng.integers(2)])}
 
 
 def run(ctx, res):
